@@ -716,6 +716,10 @@ def run_algebra_sweep(ctx: Ctx):
 
 
 def run(ctx: Ctx):
+    from . import util_lie as _UL
+    def _reads(name):
+        return {"Log": lambda o: o.Log().tensor(), "Exp(Log)": lambda o: o.Log().Exp().tensor(), "Inv.Log": lambda o: o.Inv().Log().tensor()}
+    _UL.persistent_probe(ctx, _reads)
     spec, proc = order_probe_start(ctx)      # runs concurrently in a fresh interpreter
     check_inverse_contract(ctx, 12)
     run_anchor_sweep(ctx)
